@@ -67,6 +67,28 @@ ID_NAMES = ['alt_id', 'ID', 'id_1']
 CHOICE_NAMES = ['choice', 'CHOSEN', 'ch_0x']
 
 
+F_C19_1_WHERE = ('Expression.rename_elementary (define_new_variables / generate_utility): a Variable object shared inside a formula '
+                 'while the table of alternatives has columns X and X_<i>')
+
+
+def clash_pairs(cols):
+    """pairs (X, X_<digits>) among the attribute names: the second renaming of a shared object hits"""
+    out = []
+    for c in cols:
+        for d in cols:
+            if d != c and d.startswith(c + '_') and d[len(c) + 1:].isdigit():
+                out.append((c, d))
+    return out
+
+
+def shared_clash(case):
+    """shape of known finding F-C19-1"""
+    return bool(case.get('share')) and bool(clash_pairs([case['id_col']] + list(case['cols']) + [n for n, _ in case['combined']]))
+
+
+MATCHERS = {'shared_clash': lambda sub: isinstance(sub, dict) and isinstance(sub.get('case'), dict) and shared_clash(sub['case'])}
+
+
 # ----------------------------------------------------------------------------- generators
 
 
@@ -153,7 +175,9 @@ def gen_case(rng, complete=None, with_mev=None, size=None):
     for t in terms[1:]:
         util = ['+', util, t]
     util = ['/', util, ['c', 4.0]]
+    share = rng.random() < 0.5 and not clash_pairs([id_col] + cols + [c[0] for c in combined])
     return {
+        'share': share,
         'id_col': id_col, 'ids': ids, 'cols': cols, 'values': values, 'int_valued': int_valued,
         'segments': segments, 'sizes': sizes, 'mev': mev,
         'choice_col': choice_col, 'icols': icols, 'irows': irows, 'choices': choices,
@@ -205,7 +229,7 @@ def frames(case):
     return alternatives, individuals
 
 
-def build_context(case, raw_partition=False, share=False):
+def build_context(case, raw_partition=False, share=None):
     from biogeme.partition import Partition
     from biogeme.sampling_of_alternatives import SamplingContext, CrossVariableTuple
 
@@ -217,6 +241,8 @@ def build_context(case, raw_partition=False, share=False):
         seg2 = [set(s) for s in case['mev']['segments']]
         kw['mev_partition'] = Partition(seg2, full_set=set().union(*seg2))
         kw['mev_sample_sizes'] = list(case['mev']['sizes'])
+    if share is None:
+        share = bool(case.get('share'))
     sh = {} if share else None
     return SamplingContext(
         the_partition=part,
@@ -445,12 +471,12 @@ def slim(case):
     return {k: case[k] for k in case}
 
 
-def merged_run(case, share=False):
+def merged_run(case):
     """real sample_and_merge with the samples recorded at the public entry points"""
     from biogeme.sampling_of_alternatives import ChoiceSetsGeneration, GenerateModel
 
     with core.scratch():
-        context = build_context(case, share=share)
+        context = build_context(case)
         gen = ChoiceSetsGeneration(context)
         soa = gen.sampling_of_alternatives
         rec1, rec2 = [], []
@@ -526,7 +552,12 @@ def check_merge(ctx, res, case):
         return
     strata = strata_of(case)
     idc, cols = case['id_col'], case['cols']
-    sample_cols = [idc] + cols + [LOG_PROBA]
+    known_shape = shared_clash(case)
+
+    def W(default):
+        # only the renaming-dependent comparisons of a case of the listed shape are attributed to the finding
+        return F_C19_1_WHERE if known_shape else default
+
     tab = {i: v for i, v in zip(case['ids'], case['values'])}
     complete = all(k == len(s) for s, k in strata)
     full_ll = full_model_ll(case) if complete else None
@@ -575,12 +606,12 @@ def check_merge(ctx, res, case):
                 got = row.get(f'{nm}_{i}')
                 if got is None or not close(got, want, 1e-12, 1e-12):
                     res.violate(f'combined variable {nm}_{i} is not computed from the own attributes of sampled alternative {a} and the individual',
-                                sub, got, want, where='ChoiceSetsGeneration.define_new_variables')
+                                sub, got, want, where=W('ChoiceSetsGeneration.define_new_variables'))
         # ----- oracle: full-sample equivalence through the real engine
         if complete and full_ll is not None:
             if not close(ll_values[r], full_ll[r], 1e-9, 1e-9):
                 res.violate('complete sampling: log likelihood of get_logit() differs from the logit on the full choice set',
-                            sub, ll_values[r], full_ll[r], where='GenerateModel.get_logit')
+                            sub, ll_values[r], full_ll[r], where=W('GenerateModel.get_logit'))
             res.tally('full_sample_equiv_checked')
         # ----- model: flatten, define, likelihood
         s1 = rec1[r]
@@ -607,7 +638,7 @@ def check_merge(ctx, res, case):
                          'combined': [[n, lean_formula(f)] for n, f in case['combined']],
                          'utility': lean_formula(case['utility']), 'chosen': chosen})
 
-        def cb(ans, sub=sub, row=row, base_names=base_names, names=names, r=r, complete=complete):
+        def cb(ans, sub=sub, row=row, base_names=base_names, names=names, r=r, complete=complete, W=W):
             flat = ans[0].get('row') or []
             d = {}
             order = []
@@ -626,10 +657,10 @@ def check_merge(ctx, res, case):
                 dv = {k: b2f(b) for k, b in defined}
                 if dn != names or any(not close(dv[k], row[k], 1e-12, 1e-12) for k in names):
                     res.diverge('columns after define_new_variables vs Sampling.defineVars', sub,
-                                {k: dv[k] for k in dn if k not in base_names}, {k: row[k] for k in names if k not in base_names})
+                                {k: dv[k] for k in dn if k not in base_names}, {k: row[k] for k in names if k not in base_names}, where=W(''))
             ll = ans[2].get('ll')
             if ll is None or not close(b2f(ll), ll_values[r], 1e-9, 1e-9):
-                res.diverge('likelihood of get_logit() (real engine) vs Sampling.sampledLL', sub, None if ll is None else b2f(ll), ll_values[r])
+                res.diverge('likelihood of get_logit() (real engine) vs Sampling.sampledLL', sub, None if ll is None else b2f(ll), ll_values[r], where=W(''))
             if complete:
                 fl = ans[3].get('ll')
                 if fl is None or not close(b2f(fl), full_ll[r], 1e-9, 1e-9):
@@ -767,7 +798,34 @@ CORPUS = [
     {'id_col': 'ID', 'ids': [7, 3, 12, 0], 'cols': ['x_1'], 'values': [[1.0], [2.0], [-3.0], [0.5]], 'int_valued': False,
      'segments': [[0, 3, 7, 12]], 'sizes': [4], 'mev': None, 'choice_col': 'CHOSEN', 'icols': ['inc'], 'irows': [[1.0], [2.0]], 'choices': [12, 0],
      'combined': [], 'utility': ['*', ['b', 'B', 0.75], ['*', ['v', 'x_1'], ['v', 'inc']]], 'np_seed': 7},
+    # shared Variable objects (the usual way of writing a specification), no clashing names
+    {'id_col': 'alt_id', 'ids': [30, 4, 17, 9], 'cols': ['a', 'b2'], 'values': [[10.0, 1.0], [20.0, 2.0], [30.0, 3.0], [40.0, 4.0]], 'int_valued': False,
+     'segments': [[4, 17], [9, 30]], 'sizes': [2, 1], 'mev': None, 'choice_col': 'choice', 'icols': ['age'], 'irows': [[2.5], [3.0]], 'choices': [17, 4],
+     'combined': [['sq', ['+', ['*', ['v', 'a'], ['v', 'a']], ['v', 'b2']]]],
+     'utility': ['/', ['+', ['*', ['b', 'b1', 0.5], ['v', 'a']], ['*', ['v', 'a'], ['v', 'age']]], ['c', 64.0]], 'share': True, 'np_seed': 3},
 ]
+
+# input of known finding F-C19-1 (kept identical to known_findings.d/C19.json)
+KNOWN_F_C19_1 = {
+    'id_col': 'alt_id', 'ids': [30, 4, 17, 9], 'cols': ['a', 'a_0'], 'values': [[10.0, 1.0], [20.0, 2.0], [30.0, 3.0], [40.0, 4.0]], 'int_valued': False,
+    'segments': [[4, 17], [9, 30]], 'sizes': [2, 2], 'mev': None, 'choice_col': 'choice', 'icols': ['age'], 'irows': [[2.5], [3.0]], 'choices': [17, 4],
+    'combined': [['sq', ['+', ['*', ['v', 'a'], ['v', 'a']], ['v', 'a_0']]]],
+    'utility': ['/', ['+', ['*', ['b', 'b1', 0.5], ['v', 'a']], ['*', ['v', 'a'], ['v', 'age']]], ['c', 64.0]], 'share': True, 'np_seed': 3,
+}
+
+
+def gen_known_shape(rng):
+    """cases of the listed shape: shared Variable objects + attribute names X and X_<i>"""
+    case = gen_case(rng, complete=rng.random() < 0.5, with_mev=False, size=rng.randint(4, 8))
+    x = rng.choice(['a', 'cost', 'q'])
+    i = rng.choice([0, 0, 1])
+    case['cols'] = [x, f'{x}_{i}']
+    case['values'] = [[dy(rng), dy(rng)] for _ in case['ids']]
+    case['int_valued'] = False
+    case['combined'] = [['mix', ['+', ['*', ['v', x], ['v', x]], ['v', f'{x}_{i}']]]] if rng.random() < 0.7 else []
+    case['utility'] = ['/', ['+', ['*', ['b', 'B1', 0.5], ['v', x]], ['*', ['v', x], ['v', case['icols'][0]]]], ['c', 64.0]]
+    case['share'] = True
+    return case
 
 
 def run_case(ctx, res, case, n_seeds):
@@ -788,19 +846,24 @@ def check(ctx) -> Result:
     for c in CORPUS:
         run_case(ctx, res, c, 2)
         res.tally('corpus')
-    for _ in range(ctx.n(30, 700)):
+    # the listed known finding: its own input first, then the shape (reported only through the finding)
+    run_case(ctx, res, KNOWN_F_C19_1, 1)
+    for _ in range(ctx.n(3, 30)):
+        run_case(ctx, res, gen_known_shape(rng), 1)
+        res.tally('known_shape_F-C19-1')
+    for _ in range(ctx.n(100, 1500)):
         case = gen_case(rng)
         run_case(ctx, res, case, ctx.n(3, 6))
-        if len(res.violations) > 5:
+        if sum(1 for v in res.violations if v.get('where') != F_C19_1_WHERE) > 5:
             break
     # complete sampling on purpose (the equivalence clause)
-    for _ in range(ctx.n(10, 200)):
+    for _ in range(ctx.n(40, 500)):
         case = gen_case(rng, complete=True)
         run_case(ctx, res, case, 1)
-    for _ in range(ctx.n(40, 600)):
+    for _ in range(ctx.n(150, 2000)):
         case, kind, raw = gen_context_case(rng)
         check_context(ctx, res, case, kind, raw)
-    for _ in range(ctx.n(40, 600)):
+    for _ in range(ctx.n(150, 2000)):
         pc, kind = gen_partition_case(rng)
         check_partition_case(ctx, res, pc, kind)
     ctx.batch.flush()
